@@ -260,6 +260,14 @@ def make_case(rnd, idx, table, special=None):
     if special == "pre-irr":
         idates = sorted(set([B - 20, B - 1] + [d for d in idates if B <= d <= E][:3] + [B + 250]))
     c["irr"] = [(d, rnd.choice([5, 10, 15, 20, 25, 40]), rnd.choice([0, 0, 5, 20, 50])) for d in idates]
+    # boundary amounts: an entry of exactly 0 mm / 0 kg is an event like any other (the cursor must pass it)
+    inp = [i for i, (d, _, _) in enumerate(c["irr"]) if B <= d <= E]
+    if inp and rnd.random() < 0.5:
+        for i in set([rnd.choice([inp[0], inp[len(inp) // 2], inp[-1]])] + ([inp[0]] if rnd.random() < 0.3 else [])):
+            c["irr"][i] = (c["irr"][i][0], 0, c["irr"][i][2])
+    if c["fert"] and rnd.random() < 0.4:
+        i = rnd.choice([0, len(c["fert"]) // 2, len(c["fert"]) - 1])
+        c["fert"][i] = (c["fert"][i][0], rnd.choice(["0", "000", "0.0"]), c["fert"][i][2])
     # ---- other fields' lines and block layout: list of ("own", i) / ("other", text)
     c["others"] = others
     c["layout_seed"] = rnd.randrange(1 << 30)
